@@ -17,6 +17,7 @@ import Driver.Limits
 import Driver.FailProp
 import Driver.Cancel
 import Driver.Sasl
+import Driver.Txn
 
 structure DState where
   sess : Amqp.Session.St := Amqp.Session.init 0 0 0
@@ -78,6 +79,7 @@ def handle (st : DState) (line : String) : DState × String :=
   | "P" :: ws => (st, (Driver.FailProp.step ws).getD "bad-op")
   | "Q" :: ws => (st, (Driver.Cancel.step ws).getD "bad-op")
   | "X" :: ws => (st, (Driver.Sasl.step ws).getD "bad-op")
+  | "T" :: ws => (st, (Driver.Txn.step ws).getD "bad-op")
   | "N" :: ws =>
     match Driver.Limits.step st.limits ws with
     | some (s, out) => ({ st with limits := s }, out)
